@@ -45,9 +45,24 @@ class _Plot(Contract):
             d["Xi"] = S.array("Xi", "float", shape=(n0, n1))
         return d
 
+    supplied = False     # the caller hands in (fig, ax): the diagram goes on THOSE axes, whatever pyplot's current axes are
+
+    def figure_args(self, c):
+        if not self.supplied:
+            return {"fig": None, "ax": None}
+        from pyvc.models import new_axes
+        ax = new_axes()
+        c.memo["ghost:supplied_ax"] = ax
+        return {"fig": sym.Opaque("figure", "supplied"), "ax": ax}
+
     def the_axes(self, c):
         axs = c.memo.get("ghost:axes", [])
-        c.oblige("post", "one-axes-created", len(axs) == 1)
+        c.oblige("post", "one-axes-created" if not self.supplied else "no-other-axes-created", len(axs) == 1)
+        if self.supplied:
+            stray = c.memo.get("ghost:pyplot_stray")
+            c.oblige("post", "nothing drawn through pyplot's current axes (the supplied axes need not be current)",
+                     stray is None or not any(stray.fields["calls"].get(k)[0] in ("plot", "scatter", "errorbar", "semilogy", "step", "fill_between")
+                                              for k in range(stray.fields["calls"].length)))
         return axs[0] if len(axs) == 1 else None
 
     def markers(self, c, ax, Fn, Lab, hide, yfn, what):
@@ -76,7 +91,7 @@ class _Stab(_Plot):
     def setup(self, c):
         t = self.tables(c)
         a = {"Fn": t["Fn"], "Lab": t["Lab"], "step": 1, "ordmax": S.integer("ordmax", lo=1), "ordmin": S.integer("ordmin", lo=0),
-             "freqlim": None, "hide_poles": self.hide, "fig": None, "ax": None,
+             "freqlim": None, "hide_poles": self.hide, **self.figure_args(c),
              "Fn_cov": S.array("Fn_cov", "float", shape=t["Fn"].shape) if self.cov else None}
         if c.branch(S.boolean("with_freqlim")):
             a["freqlim"] = (S.real("f_lo", py=False), S.real("f_hi", py=False))
@@ -125,6 +140,21 @@ class stab_shown(_Stab):
 
 
 @register
+class stab_shown_supplied(_Stab):
+    name = "all poles, on supplied axes"
+    hide = False
+    supplied = True
+
+
+@register
+class stab_shown_cov_supplied(_Stab):
+    name = "all poles, covariance, on supplied axes"
+    hide = False
+    cov = True
+    supplied = True
+
+
+@register
 class stab_hidden_cov(_Stab):
     name = "hide_poles, covariance"
     hide = True
@@ -145,7 +175,7 @@ class _Cluster(_Plot):
     def setup(self, c):
         t = self.tables(c, with_xi=True)
         return {"Fn": t["Fn"], "Xi": t["Xi"], "Lab": t["Lab"], "ordmin": S.integer("ordmin", lo=0), "freqlim": None,
-                "hide_poles": self.hide}
+                "hide_poles": self.hide}        # (cluster_plot takes no fig / ax)
 
     def check(self, c, pre, post, outcome):
         if outcome[0] != "return":
@@ -234,7 +264,7 @@ class _CMIF(_Plot):
         nc = S.integer("nc", lo=1)
         nf = S.integer("nf", lo=1)
         a = {"S_val": S.array("S_val", "float", shape=(nr, nc, nf), finite=True), "freq": S.array("freq", "float", shape=(nf,), finite=True),
-             "freqlim": None, "nSv": "all", "fig": None, "ax": None}
+             "freqlim": None, "nSv": "all", **self.figure_args(c)}
         c.assume(nc <= nr)
         if not self.all_curves:
             a["nSv"] = S.integer("nSv", lo=0)
@@ -255,6 +285,10 @@ class _CMIF(_Plot):
             c.oblige("post", "no-exception", False, {"raised": outcome[1]})
             return
         ax = outcome[1][1]
+        if self.supplied:
+            # (the loop rule re-creates the recorder object, so identity with the supplied one is not observable here: what is checked is
+            # that no second axes is created and nothing is drawn through pyplot's current axes)
+            self.the_axes(c)
         calls = ax.fields["calls"]
         n = S_val.shape[1] if self.all_curves else pre["nSv"]
         # the curves are the first n recorded calls; decorations follow
@@ -283,6 +317,13 @@ class cmif_all(_CMIF):
 class cmif_n(_CMIF):
     name = "nSv"
     all_curves = False
+
+
+@register
+class cmif_all_supplied(_CMIF):
+    name = "all, on supplied axes"
+    all_curves = True
+    supplied = True
 
 
 @register
